@@ -30,7 +30,12 @@ def unit_kind(inp, origin):
     return "main"
 
 
-def static_cases(ctx, stream, ids, inputs, obs, exp, stats, samples, gate=True):
+def tagval(tags, k):
+    m = re.search(r"(?:^|[, ])%s=([^, ]*)" % k, tags or "")
+    return m.group(1) if m else ""
+
+
+def static_cases(ctx, stream, ids, inputs, obs, exp, stats, samples, gate=True, inconclusive=None):
     for i in ids:
         inp = inputs[i]
         if inp.startswith("N "):
@@ -60,6 +65,8 @@ def static_cases(ctx, stream, ids, inputs, obs, exp, stats, samples, gate=True):
             continue
         if e.startswith("unsafe loop") and e.endswith(" jtf"):
             stats["inconclusive_finally_dispatch"] += 1
+            if inconclusive is not None:
+                inconclusive.add(origin)
             continue
         if not gate:
             k = "corpus_functions_with_unchecked_loop" if e.startswith("unsafe loop") else "corpus_functions_with_unchecked_return"
@@ -68,7 +75,13 @@ def static_cases(ctx, stream, ids, inputs, obs, exp, stats, samples, gate=True):
         what = "loop-without-check" if e.startswith("unsafe loop") else \
             ("return-without-check" if e.startswith("unsafe exit") else e.split()[0])
         cont = ":continue" if "continue" in origin else ""
-        ctx.fail("static:%s:%s%s" % (what, kind, cont),
+        key = "static:%s:%s%s" % (what, kind, cont)
+        tg = obs.get(i, "")
+        if tagval(tg, "form"):
+            # grid shape: canonical class = loop form x class of the ending (x unit kind when the
+            # rejected function is not the one that holds the loop under test)
+            key = "static:%s:%s:%s" % (what, tagval(tg, "form"), tagval(tg, "cls"))
+        ctx.fail(key,
                  "compiled WITH abort checks, function %s of %s is rejected by the proved validator: %s"
                  % (fname(inp), origin, e),
                  stream=stream, case=inp, impl=obs.get(i, ""), model=e,
@@ -84,14 +97,20 @@ def run(ctx):
         "a check; (2) every path from the entry / a resume point to RETURN, RETURN_SELF, RETURN_FIRST_ARG or YIELD passes a "
         "check, so every completed activation has run one (recursion, native-driven iteration). The ranking/reachability "
         "searches are unverified; only their checkers are proved. VALIDATED PER FUNCTION: abort_safe is run on every function "
-        "compiled with checker.AdditionalAbortChecks (the REPL's setting) for non-terminating shapes (6 contexts x 11 loop kinds "
-        "x 12 bodies + labelled/finally variants, recursion, channels, generators) - gated - and for the C29 corpus - REPORTED ONLY "
+        "compiled with checker.AdditionalAbortChecks (the REPL's setting) for non-terminating shapes - a grid of 10 contexts x "
+        "38 loop forms (loop, while/until incl. single-line, modifier while/until/for-in, fornum with each of the 8 subsets of its "
+        "clauses, for-in over range literal/range value/Int/generator/user iterator/pattern/finite collections/fed channel) x "
+        "labelled|unlabelled x 36 iteration endings (fallthrough, continue in every syntactic position, continue through "
+        "do/finally, continue[label] from nested loops); every run contains the covering design {form x core ending, ending x "
+        "family, context x family}, the rest of the grid is sampled; plus recursion, channels, generators, collection-literal "
+        "loops - gated - and for the C29 corpus - REPORTED ONLY "
         "(corpus_functions_with_unchecked_loop: the compiler emits bounded internal loops without checks, e.g. the rest-element "
         "loop of list patterns). The theorems are per activation: an endless chain of TAIL CALLS never completes an activation "
         "and is outside them (C33_tailcall_refuted shows an accepted function whose only check follows its tail call; the "
         "dynamic stream finds the hang). NOT PROVED / "
         "LIMITS: the validator is path-insensitive, so functions that use JUMP_TO_FINALLY (break/continue through finally) can "
-        "be rejected spuriously - counted as inconclusive_finally_dispatch, not gated statically (they are gated dynamically); "
+        "be rejected spuriously - counted as inconclusive_finally_dispatch, not gated statically; EVERY such shape is run and gated "
+        "in c33.dynamic (the check breaks if one of them got no dynamic verdict); "
         "RETURN_FINALLY is not treated as a guarded exit; one-shot definition units (<methodDefinitions>, "
         "<namespaceDefinitions>, <ivarIndices>, <file>) end in an unguarded RETURN by design and are only counted; C33_blocking_ops "
         "(model of PushCtx/PopCtx) was not built. OBSERVED ONLY (c33.dynamic): the same programs run in-process on a fresh "
